@@ -90,6 +90,15 @@ COMMON_TYPES = [
         {"kind": "ref", "name": "rc", "type": "cconst"},
         {"kind": "ref", "name": "ro", "type": "u32opt"},
     ]},
+    # constants that take their value from an enum (valueRef), inline and through a <ref>,
+    # followed by members that occupy space: constants occupy none, however they get their value
+    T("vrconst", "uint8", presence="constant", valueRef="e8.B"),
+    {"kind": "composite", "name": "vrmix", "elements": [
+        T("kv", "uint8", presence="constant", valueRef="e8.A"),
+        T("a", "uint16"),
+        {"kind": "ref", "name": "rv", "type": "vrconst"},
+        T("b", "uint32"),
+    ]},
 ]
 
 PRIM_FIELDS = ["char", "int8", "uint8", "int16", "uint16", "int32", "uint32", "int64", "uint64", "float", "double"]
@@ -164,6 +173,15 @@ def view_schema(package, byte_order):
     m.append(G("nomembers", 10, fields=[]))
     m.append(G("constonly", 11, fields=[F("k", 1, "cconst"), F("k2", 2, "e8", presence="constant", valueRef="e8.B")]))
     m.append(G("reserved", 12, fields=[], blockLength=6))
+    # m14: levels made of <data> only (no fields, no groups: compiled blockLength 0) - the
+    # first-data accessors still have to honour a longer wire block
+    m.append(G("puredata", 14, fields=[], data=[D("a", 1, "varStr8"), D("b", 2, "var16")],
+               ))
+    m.append(G("puredatagrp", 15, fields=[F("x", 1, "uint8")],
+               groups=[G("g", 10, fields=[], data=[D("p", 1, "varStr8"), D("q", 2)])]))
+    # m16: composites holding valueRef constants, as a field followed by more fields and as entry content
+    m.append(G("vrconsts", 16, fields=[F("v", 1, "vrmix"), F("after", 2, "uint16"), F("kf", 3, "vrconst")],
+               groups=[G("g", 10, fields=[F("w", 1, "vrmix"), F("z", 2, "uint8")])]))
     # m13: <data> with a 64-bit length prefix (prefix size + length can exceed size_t)
     m.append(G("wide64", 13, fields=[F("x", 1, "uint8")], data=[D("d64", 1, "var64"), D("d32", 2)]))
     return S
